@@ -44,5 +44,8 @@ Seed14 == << [Sw("FloatValueDataSource", <<1, 2>>, "combinatorial", FALSE, <<"t"
 \* explicit value lists holding NON-FINITE numbers (the tokens 99991 / 99993 are written .inf / -.inf)
 Seed15 == << Sw("FloatValueDataSource", <<1, 99991, 3>>, "combinatorial", FALSE, <<"t">>),
              Sw("FloatValueDataSourceWithDefault", <<99993, 2>>, "by_position", TRUE, <<"+", <<"t">>, <<"c", 1>>>>) >>
-AllSeeds == {Seed15, Seed14, Seed1, Seed2, Seed3, Seed4, Seed5, Seed6, Seed7, Seed8, Seed9, Seed10, Seed11, Seed12, Seed13}
+\* a same-operator group written as the RIGHT operand: 1 + (t + 2), 2 * (t * 3)
+Seed16 == << Sw("FloatValueDataSource", <<1, 2>>, "combinatorial", FALSE, <<"+", <<"c", 1>>, <<"+", <<"t">>, <<"c", 2>>>>>>),
+             Sw("FloatValueDataSourceWithDefault", <<1, 2>>, "combinatorial", FALSE, <<"*", <<"c", 2>>, <<"*", <<"t">>, <<"c", 3>>>>>>) >>
+AllSeeds == {Seed16, Seed15, Seed14, Seed1, Seed2, Seed3, Seed4, Seed5, Seed6, Seed7, Seed8, Seed9, Seed10, Seed11, Seed12, Seed13}
 =============================================================================
